@@ -26,6 +26,8 @@ HEALTHY = {
 }
 BAD = {
     'unresolvable': 'unresolvable',
+    'spaced-name': 'unresolvable',        # a line with blanks inside is one (unusable) target, not two
+    'bad-label': 'unresolvable',          # an empty label: the resolver itself raises (UnicodeError from the idna codec), which ends that scan as an internal error
     'refused': 'refused',
     'timeout': 'timeout',
     'silent': {'faults': [['connect', '*', 'stall']]},
@@ -47,6 +49,11 @@ BAD = {
     'ssh1-truncated': {'proto': 1, 'faults': [['pkm', '*', ['trunc', 30, 'close']]]},
 }
 RANK = [0, 2, 3, 1, 255]
+HOST_FORM = {'spaced-name': 'back up%d.invalid', 'bad-label': 't%d..example.invalid'}
+
+
+def host_for(i, kind):
+    return HOST_FORM.get(kind, 't%d') % i
 MODES = {'text': ['-n'], 'json': ['-n', '-j'], 'batch': ['-n', '-b'], 'json-v': ['-n', '-j', '-v'], 'json-indent': ['-n', '-jj'], 'json-indent-v': ['-v', '-jj']}
 _solo = {}
 
@@ -70,7 +77,7 @@ def add(net, host, kind):
 
 def run_list(kinds, mode, threads, choices, gate=True, hosts=None):
     net = fakenet.FakeNet()
-    hosts = hosts or ['t%d' % i for i in range(len(kinds))]
+    hosts = hosts or [host_for(i, k) for i, k in enumerate(kinds)]
     done = set()
     for h, k in zip(hosts, kinds):
         if h not in done:
@@ -190,7 +197,7 @@ def eval_case(case):
     if case.get('kind') == 'real':
         return eval_real(case)
     kinds, mode, threads = list(case['kinds']), case['mode'], case['threads']
-    hosts = ['t%d' % i for i in range(len(kinds))]
+    hosts = [host_for(i, k) for i, k in enumerate(kinds)]
     for d in case.get('dups', []):          # the same target listed again (same host, hence same kind)
         d = d % len(hosts)
         spec = BAD.get(kinds[d])
